@@ -228,6 +228,14 @@ pub fn scenarios(thorough: bool) -> Vec<Scenario> {
         d.extend(vec![json!({"l♭":[{"_id":"x","v":1,"n♭":[{"_id":"z","v":1}]},{"_id":"y","v":1}]}), json!({"l♭":[]}), json!({})]);
         d
     }, if thorough { 3 } else { 2 }, &[Op::Unstage(0), Op::Snapshot(0)]));
+    // the same edit script twice in a row (delete the head twice, with the elements moved to m♭)
+    v.push(single_scenario("single-move", vec![
+        json!({"l♭":[z(), x()], "m♭":[]}),
+        json!({"l♭":[x()], "m♭":[z()]}),
+        json!({"l♭":[], "m♭":[z(), x()]}),
+        json!({"l♭":[z(), x(), y()], "m♭":[]}),
+        json!({"l♭":[y()], "m♭":[x(), z()]}),
+    ], if thorough { 4 } else { 3 }, &[Op::Unstage(0)]));
     v
 }
 
